@@ -62,6 +62,13 @@ fn rac_lsp_glue() {
         "md:I saw the *the* cat.\nnext\n",
         "md:> I saw the\n> the cat.\nend\n",
         "md:An `x` test and teh **teh** end.\nnext\n",
+        // suggestions that differ from the flagged text by one doubled / dropped letter (a minimal-edit computation must not cross its own prefix)
+        "My adress changed, it occured twice.\nThe begining was hard, the comitee agreed.\nend\n",
+        "A realy good book, untill the end.\nnext\n",
+        // zero-width and other invisible characters before a lint; a character whose low byte is 0x0A
+        "\u{FEFF}zero\u{200B}width an test, 👩\u{200D}💻 an test.\n\u{010A}\u{300A}x《 an test here.\nend\n",
+        // a lint whose span contains a line break (a word repeated across a hard-wrapped line)
+        "This is the\nthe test.\nend\n",
     ];
     let cfg = CodeActionConfig { force_stable: false };
     let mut cases = 0u64;
@@ -129,5 +136,5 @@ fn rac_lsp_glue() {
         }
     }
     if !seen_insert_after { println!("RAC-CEX lsp_glue {{\"why\": \"vacuity guard: no InsertAfter suggestion was exercised\"}}"); panic!("vacuous"); }
-    println!("RAC-OK lsp_glue cases={} nontrivial={} bound=24-texts,every-lint,every-cursor-position", cases, nontrivial);
+    println!("RAC-OK lsp_glue cases={} nontrivial={} bound=28-texts,every-lint,every-cursor-position", cases, nontrivial);
 }
